@@ -77,11 +77,12 @@ class SStr(Sym):
 
 class SOpaque(Sym):
     """A value of a Python type the engine only compares for equality (float, UUID, ...)."""
-    __slots__ = ("t", "kind")
+    __slots__ = ("t", "kind", "aux")
 
-    def __init__(self, t, kind):
+    def __init__(self, t, kind, aux=None):
         self.t = t
         self.kind = kind
+        self.aux = aux
 
     def __repr__(self):
         return f"SOpaque[{self.kind}]({self.t})"
@@ -449,6 +450,15 @@ class Ctx:
         # after the obligation it may be assumed (it is checked separately)
         self.assume(phi)
 
+    def decide_free(self, label):
+        """fork on a fresh, unconstrained choice (no solver call needed: both sides feasible)"""
+        cond = z3.Bool(self.fresh(label))
+        i = len(self.taken)
+        choice = self.prefix[i] if i < len(self.prefix) else False
+        self.taken.append(choice)
+        self.pc.append(cond if choice else z3.Not(cond))
+        return choice
+
     def decide(self, cond):
         """fork on a symbolic condition; returns the branch taken on this path"""
         if isinstance(cond, SBool):
@@ -714,6 +724,19 @@ def equalise(ctx, a, b):
             raise Mismatch(f"cannot align {x!r} with {y!r}")
     rest = a or b
     if rest:
+        # composite encodings left over on one side: unfold them so their length is explicit
+        for _ in range(6):
+            changed = False
+            for i, s_ in enumerate(rest):
+                if isinstance(s_, Enc) and s_.codec[0] in ("ent", "nent", "tagged", "carr", "larr", "run"):
+                    try:
+                        rest[i:i + 1] = list(normalise(kafka.unfold(ctx, s_)))
+                        changed = True
+                        break
+                    except Undecided:
+                        pass
+            if not changed:
+                break
         ln = total_len(rest)
         if isinstance(ln, int):
             if ln:
